@@ -13,6 +13,7 @@ import (
 	"go.uber.org/zap"
 	"go.uber.org/zap/zapcore"
 	"go.uber.org/zap/zzverif/bridge"
+	"verif/harness/internal/ev"
 )
 
 // ---------------------------------------------------------------------------
@@ -617,7 +618,7 @@ func configKinds() []coreKind {
 								defer func() { curWorld = nil }()
 								l, err := cfg.Build(opts...)
 								if err != nil {
-									panic(fmt.Sprintf("harness: Config.Build: %v", err))
+									ev.ToolError("C06: Config.Build: %v", err)
 								}
 								return l
 							},
@@ -638,15 +639,19 @@ func constructorKinds() []coreKind {
 	withStd := func(w *world, f func() (*zap.Logger, error)) *zap.Logger {
 		st, err := scratch.Stat()
 		if err != nil {
-			panic(fmt.Sprintf("harness: stat scratch: %v", err))
+			ev.ToolError("C06: stat scratch: %v", err)
 		}
 		w.file = &fileObs{f: scratch, off: st.Size(), must: always}
+		w.cleanup = append(w.cleanup, func() {
+			_ = scratch.Truncate(0)
+			_, _ = scratch.Seek(0, 0)
+		})
 		oldOut, oldErr := os.Stdout, os.Stderr
 		os.Stdout, os.Stderr = scratch, scratch
 		defer func() { os.Stdout, os.Stderr = oldOut, oldErr }()
 		l, err := f()
 		if err != nil {
-			panic(fmt.Sprintf("harness: constructor: %v", err))
+			ev.ToolError("C06: constructor: %v", err)
 		}
 		return l
 	}
